@@ -49,6 +49,8 @@ func main() {
 		err = genEncAggr(os.Args[2], os.Args[3])
 	case "plugconv":
 		err = genPlugConv(os.Args[2], os.Args[3])
+	case "scandecode":
+		err = genScanDecode(os.Args[2], os.Args[3])
 	case "register":
 		err = genRegister(os.Args[2], os.Args[3])
 	case "grpcwarmup":
